@@ -38,6 +38,14 @@ class ErrAB(ErrA):
     pass
 
 
+class ErrPayload(Exception):
+    """An exception that carries a mutable payload (compared by type and payload)."""
+
+    def __init__(self, payload=None):
+        Exception.__init__(self)
+        self.payload = payload
+
+
 class Interrupt(BaseException):
     """Interrupt-style termination (KeyboardInterrupt / SystemExit stand-in)."""
 
